@@ -490,6 +490,12 @@ func c13(ctx *run.Ctx, raceOnly bool) {
 			pool = append(pool, c)
 		}
 	}
+	if !raceOnly {
+		// end to end through cmd/indicator-backtest
+		for i := 0; i < ctx.Pick(3, 24); i++ {
+			ctx.Case(fmt.Sprintf("cli/%d", i), c13CLI)
+		}
+	}
 	n := ctx.Pick(32, 600)
 	if raceOnly {
 		n = ctx.Pick(16, 100)
